@@ -182,8 +182,17 @@ mod rolling {
         sink.runs += 1;
         let first: Vec<u8> = (0..wl).map(byte_at).collect();
         let mut win: std::collections::VecDeque<u8> = first.iter().copied().collect();
-        let mut p = RollingChecksum::new(&first);
-        let mut f = FastRollingChecksum::new(&first);
+        // (construction can be what panics: that is data too, not the harness's end)
+        let built = catch_unwind(AssertUnwindSafe(|| (RollingChecksum::new(&first), FastRollingChecksum::new(&first))));
+        let (mut p, mut f) = match built {
+            Ok(x) => x,
+            Err(_) => {
+                sink.emit(json!({"ev":"data","bytes":first,"after_slides":0}));
+                sink.emit(json!({"ev":"panic","op":"n"}));
+                sink.rotate();
+                return;
+            }
+        };
         let mut done = 0usize;
         while done < slides {
             let chunk = every.min(slides - done);
